@@ -354,7 +354,7 @@ def createSynced (o : XOracle) (fs : FS) (e : XEntry) : XRes :=
 /-! ### `unsafe_mkdir_synced` (manager.py 560-599), `mkdir_synced` (601-644) -/
 
 def unsafeMkdir (o : XOracle) (fs : FS) (e : XEntry) (fx : List XEff) : XRes :=
-  let fx := if o.dupDirSynced then fx ++ [.discardOther] else fx                  -- 566-572
+  let fx := if o.dupDirSynced && !o.dupDirChanged then fx ++ [.discardOther] else fx   -- 566-572 (an entry discarded at 615 is no longer listed)
   if o.fileConflict then ⟨.code .punt, fx ++ [.resolve], fs, e⟩                   -- 574-580
   else
     match o.mk_ with                                                              -- 583
